@@ -98,6 +98,16 @@ class Ctx(object):
         if found < minimum:
             raise AnchorMissing("%s: %s: matched %d site(s), expected at least %d" % (rule, what, found, minimum))
 
+    def require(self, rule, site, what, found, minimum=1):
+        """a *mechanism* construct (guard, verification call, handler) must be present: its absence in an
+        existing anchor function is a violation of the rule, not an analysis error"""
+        if found < minimum:
+            self.violated(rule, site, "missing: " + what, "required construct not found: %s (found %d, need %d)" % (what, found, minimum),
+                          witness={"found": found, "required": minimum})
+            return False
+        self.instance_floor.append((rule, what, found, minimum))
+        return True
+
     def undecided(self, rule, site, reason):
         raise Undecided("rule=%s site=%s reason=%s" % (rule, getattr(site, "qual", site), reason))
 
